@@ -42,6 +42,15 @@ PROPS = {
         assumptions=LOG_ASSUME + ["the clock is an explicit input: computeTTL is mocked to return the ttl of each clean"],
         trusted=["OS file system below the modelled delete semantics"],
     ),
+    "C10": dict(
+        lean_modules=["Liftbridge.Props.C10"],
+        gen_sources=LOG_SOURCES + ["server/partition.go:partition.getStopOffset", "server/partition.go:partition.Subscribe",
+                                   "server/partition.go:partition.newSubscribeLoop", "server/commitlog/commitlog.go:commitLog.EarliestOffsetAfterTimestamp"],
+        runs=[dict(go_pkg="./server/commitlog", test="TestVerifC10Log")],
+        level="proof",
+        assumptions=LOG_ASSUME,
+        trusted=[],
+    ),
     "C14": dict(
         lean_modules=["Liftbridge.Props.C14"],
         gen_sources=["server/protocol/envelope.go"],
